@@ -15,9 +15,10 @@ def hopsOfFacts : HopRule :=
 /-- **Tie (translator)**: `forwardMessage` expires at `HopsToLive <= 0`, decrements the TTL
 byte by one after that test and before the send, and guards notices by
 `FromService != "unreach"`; the default budget of notices and ping replies is
-`maxForwardingHops`. -/
+`maxForwardingHops`; a ping listens for notices before it sends (a notice can be produced inside the send). -/
 theorem C10_facts : hopsOfFacts = stdHops ∧ Receptor.Facts.fwd_order = "expire-test,route,conn,encode,decrement,send"
-    ∧ Receptor.Facts.fwd_sendmessage_budget = "s.maxForwardingHops" := by decide
+    ∧ Receptor.Facts.fwd_sendmessage_budget = "s.maxForwardingHops"
+    ∧ Receptor.Facts.ping_order = "ListenPacket<SetHopsToLive<SubscribeUnreachable<WriteTo" := by decide +kernel
 
 /-- **forward_bound.** A datagram sent with hop budget `h` is relayed at most `h` times,
 for every assignment of routing tables, connections, firewalls and listeners to every
